@@ -1185,6 +1185,11 @@ impl CanonicalizeContext {
 
 				mathml.replace_children(children);
 				// debug!("clean_mathml: after loop\n{}", mml_to_string(&mathml));
+				if element_name == "mrow" && mathml.children().is_empty() {
+					// an mrow that is kept because it has an 'intent' lost all its children (they were white space) --
+					//   like for an mrow that is empty from the start, create some content so that no one needs special cases
+					mathml.append_child( CanonicalizeContext::create_empty_element(&mathml.document()) );
+				}
 
 				if element_name == "mrow" || ELEMENTS_WITH_ONE_CHILD.contains(element_name) {
 					clean_chemistry_mrow(mathml);
